@@ -71,6 +71,10 @@ def arg_tuples(cls, rng):
         return [("group message", inner)]
     cands = [(), ("msg",), (gen.gen_plain(rng, 2),), tuple(gen.gen_plain(rng, 3) for _ in range(rng.randrange(2, 5))),
              ([1, 2], "x"), (gen.Obj(3),), ("\udc80sur", b"\x00\xff", (1, (2.5, None)), frozenset([1])), (10 ** 30, -0.0, 1j)]
+    # mixed tuples: immutable scalars and immutable containers next to arguments that travel as their repr
+    mixed = [gen.gen_plain(rng, 3) if rng.random() < 0.6 else rng.choice([[3], {"k": 1}, gen.Obj(rng.randrange(9)), {1, 2}, bytearray(b"ba")])
+             for _ in range(rng.randrange(2, 6))]
+    cands += [((1, 2), [3]), (frozenset([1]), {"a": 1}, slice(1, 2)), ([0], (4, (5, frozenset(["n"]))), "s", slice(None, 3, None)), tuple(mixed)]
     if issubclass(cls, OSError):
         cands += [(2, "No such file"), (2, "No such file", "fname.txt"), (13, "denied", "a", None, "b"), (11, "again")]
     if issubclass(cls, SyntaxError):
